@@ -140,6 +140,7 @@ def run_session_check(ctx, prop, n_quick=200, n_thorough=3000, maxops=30):
         if rc != 0:
             ctx.tie_failures.append("driver model sess failed: " + err[-200:])
             return []
+        L.monitor_accepts_model(ctx, "sess", model)
         diffs = [d for d in L.diff_cases(impl, model) if "AMBIGUOUS" not in d["other"]]
         if diffs:
             d = diffs[0]
